@@ -86,21 +86,29 @@ fn feed_forms(rng: &mut Rng, data: &[u8]) -> (Vec<(String, u32)>, Vec<(String, u
     (r, f)
 }
 pub fn ev_hp(sh: &mut Shards, rng: &mut Rng, data: &[u8]) {
-    let mut roll = RollingHash::new();
-    let mut fnv = PartialFNVHash::new();
+    // a panic inside the primitives is data: the event is recorded with `panics` = 1 (the
+    // specification requires 0) and whatever had been observed up to that point
     let mut rv = vec![];
     let mut fv = vec![];
-    for &c in data {
-        roll.update_by_byte(c);
-        fnv.update_by_byte(c);
-        rv.push(jw32(roll.value()));
-        fv.push(fnv.value());
-    }
-    let (rf, ff) = feed_forms(rng, data);
+    let r = std::panic::catch_unwind(std::panic::AssertUnwindSafe(|| {
+        let mut roll = RollingHash::new();
+        let mut fnv = PartialFNVHash::new();
+        for &c in data {
+            roll.update_by_byte(c);
+            fnv.update_by_byte(c);
+            rv.push(jw32(roll.value()));
+            fv.push(fnv.value());
+        }
+        feed_forms(rng, data)
+    }));
+    let (panics, (rf, ff)) = match r {
+        Ok(x) => (0, x),
+        Err(_) => (1, (vec![("slice".to_string(), 0u32)], vec![("slice".to_string(), 0u8)])),
+    };
     let rfj: Vec<String> = rf.iter().map(|(k, v)| format!("\"{}\":{}", k, jw32(*v))).collect();
     let ffj: Vec<String> = ff.iter().map(|(k, v)| format!("\"{}\":{}", k, v)).collect();
     sh.emit_w(
-        &format!("{{\"ev\":\"hp\",\"d\":{},\"roll\":[{}],\"fnv\":{},\"rforms\":{{{}}},\"fforms\":{{{}}}}}", jarr_u8(data), rv.join(","), jarr_u8(&fv), rfj.join(","), ffj.join(",")),
+        &format!("{{\"ev\":\"hp\",\"panics\":{},\"d\":{},\"roll\":[{}],\"fnv\":{},\"rforms\":{{{}}},\"fforms\":{{{}}}}}", panics, jarr_u8(data), rv.join(","), jarr_u8(&fv), rfj.join(","), ffj.join(",")),
         data.len() as u64 + 1,
     );
 }
